@@ -31,6 +31,7 @@ type profile struct {
 	wRawFrame    int
 	wTokenReset  int
 	wSilent      int
+	wHTTP        int
 	refThrottle  []int
 	rstThrottle  []int
 	versions     []string
@@ -70,7 +71,7 @@ var valuePool = []aval{"p0", "p1", "p2", "p5", "r:m.a", "r:m.b", "r:m.c", "r:m.s
 
 func baseProfile(name string) profile {
 	return profile{name: name, steps: 45, maxClients: 2, wConnect: 3, wRequest: 30, wAnswer: 40, wEvent: 14, wToken: 2,
-		wReset: 2, wDisconnect: 1, wEvict: 2, wRawFrame: 1, wTokenReset: 1, wSilent: 2,
+		wReset: 2, wDisconnect: 1, wEvict: 2, wRawFrame: 1, wTokenReset: 1, wSilent: 2, wHTTP: 3,
 		refThrottle: []int{0}, rstThrottle: []int{0}, versions: []string{"1.2.3"}, denyPct: 12, getFailPct: 8, malformedPct: 4,
 		reqKinds:   []string{"subscribe", "subscribe", "subscribe", "unsubscribe", "get", "call", "new", "auth"},
 		eventKinds: []string{"change", "change", "add", "remove", "custom", "custom", "delete", "reaccess", "query", "badkind", "badpayload"}}
@@ -582,6 +583,24 @@ func (g *gen) event() {
 	}
 }
 
+// httpGet issues an HTTP GET for a resource (sometimes with an odd path).
+func (g *gen) httpGet() {
+	rid := pick(g.r, g.rids())
+	if strings.Contains(rid, "{cid}") || len(rid) > 200 || strings.HasPrefix(rid, "m.pq") {
+		rid = "m.a"
+	}
+	name, query := rid, ""
+	if i := strings.IndexByte(rid, '?'); i >= 0 {
+		name, query = rid[:i], rid[i+1:]
+	}
+	path := "/api/" + strings.ReplaceAll(name, ".", "/")
+	if g.r.chance(1, 12) {
+		path = pick(g.r, []string{"/api/m/a/", "/api/m.a", "/api/m//a", "/api/m/%2a", "/api/m/a%20b", "/api/", "/api/m/*"})
+	}
+	g.kinds["http:get"]++
+	g.w.httpGet(path, query)
+}
+
 func (g *gen) silent() {
 	names := g.cachedResources()
 	if len(names) == 0 {
@@ -662,7 +681,7 @@ func (g *gen) rawFrame() {
 
 func (g *gen) step() {
 	p := g.p
-	total := p.wConnect + p.wRequest + p.wAnswer + p.wEvent + p.wToken + p.wReset + p.wDisconnect + p.wEvict + p.wRawFrame + p.wTokenReset + p.wSilent
+	total := p.wConnect + p.wRequest + p.wAnswer + p.wEvent + p.wToken + p.wReset + p.wDisconnect + p.wEvict + p.wRawFrame + p.wTokenReset + p.wSilent + p.wHTTP
 	x := g.r.intn(total)
 	switch {
 	case x < p.wConnect:
@@ -722,6 +741,11 @@ func (g *gen) step() {
 		g.tokenReset()
 		return
 	}
+	x -= p.wTokenReset
+	if x < p.wHTTP {
+		g.httpGet()
+		return
+	}
 	g.silent()
 }
 
@@ -747,15 +771,16 @@ type historyResult struct {
 	NSteps  int            `json:"nsteps"`
 	RefThr  int            `json:"refThrottle"`
 	RstThr  int            `json:"resetThrottle"`
+	Flat    bool           `json:"flat"`
 }
 
 // runHistory generates and runs one history.
 func runHistory(p profile, seed uint64, index int, keepSteps bool, wantSnap bool) *historyResult {
 	r := newRng(seed*1000003 + uint64(index)*7919 + 17)
 	u := stdUniverse()
-	cfg := worldCfg{referenceThrottle: pick(r, p.refThrottle), resetThrottle: pick(r, p.rstThrottle), metrics: true}
+	cfg := worldCfg{referenceThrottle: pick(r, p.refThrottle), resetThrottle: pick(r, p.rstThrottle), metrics: true, flat: r.chance(1, 3)}
 	w, err := newWorld(cfg, u)
-	hr := &historyResult{Seed: seed, Profile: p.name, Index: index, RefThr: cfg.referenceThrottle, RstThr: cfg.resetThrottle}
+	hr := &historyResult{Seed: seed, Profile: p.name, Index: index, RefThr: cfg.referenceThrottle, RstThr: cfg.resetThrottle, Flat: cfg.flat}
 	if err != nil {
 		hr.Viols = []violation{{Prop: "C20", Key: "start-failed", What: err.Error()}}
 		return hr
@@ -764,11 +789,11 @@ func runHistory(p profile, seed uint64, index int, keepSteps bool, wantSnap bool
 	if crashLog != nil {
 		crashLog.Truncate(0)
 		crashLog.Seek(0, 0)
-		fmt.Fprintf(crashLog, "# profile=%s seed=%d history=%d\n# config referenceThrottle=%d resetThrottle=%d\n", p.name, seed, index, cfg.referenceThrottle, cfg.resetThrottle)
+		fmt.Fprintf(crashLog, "# profile=%s seed=%d history=%d\n# config referenceThrottle=%d resetThrottle=%d flat=%s\n", p.name, seed, index, cfg.referenceThrottle, cfg.resetThrottle, b2s(cfg.flat))
 	}
 	g := &gen{r: r, w: w, p: p, u: u, kinds: map[string]int{}}
 	g.pqVariant = r.next() % 3
-	w.steps = append(w.steps, stepRec{Stim: fmt.Sprintf("# config referenceThrottle=%d resetThrottle=%d", cfg.referenceThrottle, cfg.resetThrottle)})
+	w.steps = append(w.steps, stepRec{Stim: fmt.Sprintf("# config referenceThrottle=%d resetThrottle=%d flat=%s", cfg.referenceThrottle, cfg.resetThrottle, b2s(cfg.flat))})
 	g.connect()
 	for i := 0; i < p.steps && w.stall == ""; i++ {
 		g.step()
